@@ -11,6 +11,7 @@ const (
 	SHR            = 0x1c
 	CALLDATALOAD   = 0x35
 	CALLDATASIZE   = 0x36
+	CALLVALUE      = 0x34
 	CALLDATACOPY   = 0x37
 	CODECOPY       = 0x39
 	RETURNDATASIZE = 0x3d
@@ -49,9 +50,15 @@ func (a *Asm) Op(ops ...byte) *Asm {
 	}
 	return a
 }
-func (a *Asm) Push1(v byte) *Asm      { a.items = append(a.items, item{op: PUSH1, imm: []byte{v}}); return a }
-func (a *Asm) PushLabel(l string) *Asm { a.items = append(a.items, item{op: PUSH1, label: l}); return a }
-func (a *Asm) Label(l string) *Asm     { a.items = append(a.items, item{op: JUMPDEST, def: l}); return a }
+func (a *Asm) Push1(v byte) *Asm {
+	a.items = append(a.items, item{op: PUSH1, imm: []byte{v}})
+	return a
+}
+func (a *Asm) PushLabel(l string) *Asm {
+	a.items = append(a.items, item{op: PUSH1, label: l})
+	return a
+}
+func (a *Asm) Label(l string) *Asm { a.items = append(a.items, item{op: JUMPDEST, def: l}); return a }
 
 func (a *Asm) Bytes() []byte {
 	pos := map[string]int{}
@@ -97,13 +104,23 @@ func Deploy(runtime []byte) []byte {
 // ProxyRuntime: calldata = target(20 bytes) | mode(1 byte) | payload. Calls target with payload (all gas, no value),
 // then mode 0: RETURN the return data; mode 1: REVERT with the return data; mode 2: burn all gas in a loop;
 // mode 3: SSTORE(0, 1) then RETURN (a state change of its own before returning).
-func ProxyRuntime() []byte {
+func ProxyRuntime() []byte { return proxyRuntime(false) }
+
+// PayProxyRuntime is ProxyRuntime forwarding the value it was called with to the target.
+func PayProxyRuntime() []byte { return proxyRuntime(true) }
+
+func proxyRuntime(forwardValue bool) []byte {
 	a := &Asm{}
-	a.Op(CALLDATASIZE).Push1(21).Op(SWAP1, SUB) // [len]
+	a.Op(CALLDATASIZE).Push1(21).Op(SWAP1, SUB)    // [len]
 	a.Op(DUP1).Push1(21).Push1(0).Op(CALLDATACOPY) // mem[0..len) = payload ; [len]
-	a.Push1(0).Push1(0).Op(DUP3).Push1(0).Push1(0) // retSize retOffset argsSize argsOffset value
-	a.Push1(0).Op(CALLDATALOAD).Push1(96).Op(SHR)  // addr
-	a.Op(GAS, CALL)                                // [success, len]
+	a.Push1(0).Push1(0).Op(DUP3).Push1(0)          // retSize retOffset argsSize argsOffset
+	if forwardValue {
+		a.Op(CALLVALUE)
+	} else {
+		a.Push1(0)
+	}
+	a.Push1(0).Op(CALLDATALOAD).Push1(96).Op(SHR) // addr
+	a.Op(GAS, CALL)                               // [success, len]
 	a.Op(POP, POP)
 	a.Op(RETURNDATASIZE).Push1(0).Push1(0).Op(RETURNDATACOPY)
 	a.Push1(20).Op(CALLDATALOAD).Push1(248).Op(SHR) // [mode]
